@@ -91,7 +91,7 @@ class RectangularConfidenceRegion(ConfidenceRegion):
         """
         if covariance.shape[-1] != covariance.shape[-2]:
             raise ValueError("Covariance matrix must be square.")
-        std = np.sqrt(np.diag(covariance.squeeze()))
+        std = np.sqrt(np.diag(covariance.reshape(covariance.shape[-2:])))
 
         L = mean - std * scale
         U = mean + std * scale
